@@ -33,7 +33,7 @@ ASSUMPTIONS = [
     "inputs are the vendored corpus fonts (no generated fonts: not this technique)",
     "tables that carry free text are compared after XML white-space normalisation of their dumps when their bytes differ, as the property allows",
 ]
-EXPECTED_PROBES = ["input.generated", "expat.split_text_node", "reader.short", "reader.text", "reader.path", "bufsize.1", "dump.splitTables", "dump.splitGlyphs", "newline.crlf", "lossless.tables_checked"]
+EXPECTED_PROBES = ["merge.untouched_checked", "edit.reorder", "input.generated", "expat.split_text_node", "reader.short", "reader.text", "reader.path", "bufsize.1", "dump.splitTables", "dump.splitGlyphs", "newline.crlf", "lossless.tables_checked"]
 
 TIERS = {
     "quick": {"budget_s": 170, "determinism_sample": 10, "n": {"sweep": 1500}, "minimise_s": 40, "max_minimise": 3},
@@ -48,7 +48,10 @@ def _fonts():
     # corpus binaries plus small generated TrueType fonts that carry what the corpus lacks: glyph names
     # that collide once mapped to file names or that need XML escaping, and TrueType programs whose push
     # operands sit on the boundaries of their encodings
-    return corpus.binaries() + ["gen:%d" % i for i in range(N_GENERATED)]
+    # ... and the fonts that the corpus TTX files compile to (CID-keyed CFF, CFF2 with several font
+    # dicts, AAT and bitmap tables the binaries lack), when they are recompile fixed points
+    ttx = ["ttx:" + t for t in corpus.ttx_files() if isinstance(corpus.gen2("ttx:" + t), bytes)]
+    return corpus.binaries() + ["gen:%d" % i for i in range(N_GENERATED)] + ttx
 
 
 NASTY_GLYPH_NAMES = ["A/B", "A_B", "a:b", "a*b", "a_b", "x&y", "x<y", "x>y", 'q"r', "p'q", "a", "A", "Aa", "aA", "AA", "aa", "con", "CON", "Con", "aux", "nul.alt", "com1", "a.alt", "A.alt", "f_f_i", "F_F_I", "uni0041", "u1F600", "semi;colon", "per%cent", "hash#", "at@", "back\\slash", "pipe|", "br[ack]et", "plus+", "q?mark", "x" * 60, "X" * 60, "x" * 59 + "Y", "dot.", ".dot", "_", "__", "a__", "A__"]
@@ -136,11 +139,16 @@ def gen_font(i):
 def _raw(rel):
     if rel.startswith("gen:"):
         return gen_font(int(rel[4:]))
+    if rel.startswith("ttx:"):
+        return corpus.gen2(rel)
     return corpus.raw(rel)
 
 
 def prepare(ctx):
-    return {"fonts": len(_fonts())}
+    keys = ["ttx:" + t for t in corpus.ttx_files()]
+    for k, v in zip(keys, ctx.pmap(corpus.compute_gen2, keys, timeout_s=300)):
+        corpus.put_gen2(k, v)
+    return {"fonts": len(_fonts()), "fonts_from_ttx": sum(1 for f in _fonts() if f.startswith("ttx:"))}
 
 
 def batches(ctx):
@@ -183,7 +191,7 @@ def generate(ctx, batch, idx):
         "rseed": r.randrange(1 << 30),
         "lazy": r.choice([None, True, False]),
         # EDITs applied to the object model before it is dumped (values the corpus lacks)
-        "ops": [op for op in ([["name", r.randrange(1 << 30)]] if r.random() < 0.35 else []) + ([["fixed", r.randrange(1 << 30)]] if r.random() < 0.35 else [])],
+        "ops": [op for op in ([["name", r.randrange(1 << 30)]] if r.random() < 0.35 else []) + ([["fixed", r.randrange(1 << 30)]] if r.random() < 0.35 else []) + ([["reorder", r.randrange(1 << 30)]] if sel is None and r.random() < 0.15 else [])],
     }
 
 
@@ -243,6 +251,8 @@ def _import(h, main_path, data, reader, bufsize, rseed, probes, base_font_bytes=
     probes["_cdata_calls"] = state["splits"]
     out = io.BytesIO()
     font.save(out)
+    # tables the merged font never decoded (they were copied from the font it was merged onto)
+    probes["_not_loaded"] = sorted(t for t in font.keys() if t != "GlyphOrder" and not font.isLoaded(t))
     return out.getvalue()
 
 
@@ -294,6 +304,13 @@ def _execute(ctx, h, scratch):
                 nasty = rr.choice(["a & b", "<tag>", 'q"uote\'s', "]]>", "é ü 日本", "tab\there", "amp;&amp;", "  lead and trail  ", "two  spaces", "&#10;", "a&b<c>d\"e", "\U0001F600"])
                 font["name"].setName(nasty, rr.choice([1, 4, 5, 256, 300]), 3, 1, 0x409)
                 probes["edit.name"] = 1
+            if name == "reorder":
+                # glyph order no longer the order of the names (whatever a dump sorts by name must still
+                # come back in glyph order)
+                from props import c16
+
+                c16.apply_edit(font, "reorder", {"k": 0, "seed": seed})
+                probes["edit.reorder"] = 1
             if name == "fixed":
                 if "head" in font:
                     font["head"].fontRevision = rr.randrange(1, 1 << 20) / 65536.0
@@ -303,8 +320,9 @@ def _execute(ctx, h, scratch):
         kw = dict(h["opts"])
         sel_tags = None
         if h["select"]:
-            # loca and Gloc are written by their owners (glyf, Glat) and have no content of their own
-            cand = [t for t in tags if t not in ("loca", "Gloc")]
+            # Gloc is written by its owner (Glat) and has no content of its own; so is loca, but a dump
+            # may list it without glyf, and the merged font must then keep the loca it has
+            cand = [t for t in tags if t not in ("Gloc",)]
             sel_tags = sorted(set(cand[k % len(cand)] for k in h["select"][1]))
             kw[h["select"][0]] = sel_tags
         d = os.path.join(scratch, "dump")
@@ -339,12 +357,14 @@ def _execute(ctx, h, scratch):
         _known(h, res)
         return res
     base_calls = probes.pop("_cdata_calls", 0)
+    not_loaded = set(probes.pop("_not_loaded", []))
     # delivery under test
     try:
         b = _import(h, main, data, h["reader"], h["bufsize"], h["rseed"], probes, base)
     except Exception as e:
         fail("import-depends-on-delivery:raises", "the same dump imports through a path but raises %s through the simulated delivery: %s" % (type(e).__name__, str(e)[:120]))
         return res
+    probes.pop("_not_loaded", None)
     if probes.pop("_cdata_calls", 0) > base_calls:
         probes["expat.split_text_node"] = 1
     events.append([rel, prng.bdigest(data), prng.bdigest(a), prng.bdigest(b)])
@@ -371,6 +391,26 @@ def _execute(ctx, h, scratch):
         # the others were never decoded in the merged font
         dumped = set(sel_tags) if h["select"][0] == "tables" else set(tags) - set(sel_tags)
         judged &= dumped - {"head", "hhea", "vhea", "maxp", "hmtx", "vmtx", "loca", "glyf", "OS/2", "post", "CFF ", "CFF2"}
+    if partial:
+        # merged onto the unedited source: what the dump does not contain passes through untouched, and
+        # loca stays what it was unless glyf was re-imported
+        try:
+            ts = container.tables_of(src)
+        except Exception:
+            ts = {}
+        # (a table that compiling another one decoded - cmap for OS/2, glyf for maxp - is re-encoded and
+        # not judged here; loca is judged unless glyf was decoded, i.e. recompiled)
+        keep = (set(ts) & set(ta) & not_loaded) - dumped
+        if "glyf" in not_loaded and "loca" in ts and "loca" in ta:
+            keep.add("loca")
+        for t in sorted(keep):
+            probes["merge.untouched_checked"] = probes.get("merge.untouched_checked", 0) + 1
+            x, y = ta[t], ts[t]
+            if t == "head" and len(x) >= 12 and len(y) >= 12:
+                x, y = x[:8] + x[12:], y[:8] + y[12:]  # checkSumAdjustment belongs to the file
+            if x != y:
+                fail("ttx-merge-changes-table-not-in-dump:" + t.strip(), "table %r was not re-imported (dump has %s) yet the merged font stores %d bytes where the font it was merged onto has %d" % (t, sorted(dumped)[:6], len(ta[t]), len(ts[t])), tag=t)
+                break
     for t in sorted(judged):
         x, y = ta[t], tr[t]
         if t == "head" and len(x) >= 12 and len(y) >= 12:
